@@ -8,6 +8,7 @@ legal (must succeed with the model's contents) or illegal (TraitError, nothing c
 notified).
 """
 import copy
+import gc
 import operator
 
 from hypothesis import strategies as st
@@ -205,6 +206,7 @@ def list_ops(inner):
         st.tuples(st.just("setitem"), IDX, it), st.tuples(st.just("delitem"), IDX), st.tuples(st.just("delitem"), IDX),
         st.tuples(st.just("setslice"), SL, its), st.tuples(st.just("setslice"), SL, its),
         st.tuples(st.just("delslice"), SL), st.tuples(st.just("assign"), st.lists(it, max_size=5)),
+        st.tuples(st.just("assign_copy"), st.lists(it, max_size=2)), st.tuples(st.just("assign_twin"), st.lists(it, max_size=4)),
         st.tuples(st.just("assign_other"), st.sampled_from([None, 5, {"t": [1, 2]}, "ab"])),
     ).map(list)
 
@@ -217,6 +219,7 @@ def dict_ops(k, v):
         st.tuples(st.just("update"), pairs), st.tuples(st.just("ior"), pairs), st.tuples(st.just("setdefault"), K, V),
         st.tuples(st.just("pop"), K), st.tuples(st.just("popitem")), st.tuples(st.just("clear")),
         st.tuples(st.just("assign"), pairs), st.tuples(st.just("assign_other"), st.sampled_from([None, 5, [1]])),
+        st.tuples(st.just("assign_copy"), pairs), st.tuples(st.just("assign_twin"), pairs),
     ).map(list)
 
 
@@ -231,6 +234,7 @@ def set_ops(inner):
         st.tuples(st.just("intersection_update"), its), st.tuples(st.just("iand"), its),
         st.tuples(st.just("clear")), st.tuples(st.just("assign"), its),
         st.tuples(st.just("assign_other"), st.sampled_from([None, 5, [1]])),
+        st.tuples(st.just("assign_copy"), its), st.tuples(st.just("assign_twin"), its),
     ).map(list)
 
 
@@ -494,7 +498,7 @@ def run(case, ctx):
         # ---- resolve the target container
         top = getattr(o, name)
         if len(path) == 2:
-            if k in ("assign", "assign_other"):
+            if k in ("assign", "assign_other", "assign_copy", "assign_twin"):
                 continue
             if spec[0] == "list":
                 if not len(top):
@@ -521,8 +525,25 @@ def run(case, ctx):
         m_reject = False     # element / length constraint would be violated
         m_exc = None         # builtin exception class of the underlying op
         try:
-            if k == "assign":
+            if k in ("assign", "assign_copy", "assign_twin"):
                 raw = op[1]
+                if k == "assign_copy":
+                    # the value assigned is a detached deep copy of the current container (it keeps its trait) into which
+                    # the items were put WITHOUT validation (base-class methods): whole-value assignment must validate it
+                    if kind == "list":
+                        raw = list(model) + list(raw)
+                    elif kind == "dict":
+                        try:
+                            raw = list(model.items()) + [tuple(p) for p in raw]
+                            dict(raw)
+                        except TypeError:
+                            raise Skip()
+                    else:
+                        try:
+                            raw = list(model) + list(raw)
+                            set(raw)
+                        except TypeError:
+                            raise Skip()
                 if kind == "dict":
                     try:
                         raw = dict([tuple(p) for p in raw])
@@ -534,6 +555,12 @@ def run(case, ctx):
                     except TypeError:
                         raise Skip()
                 op[1] = raw
+                if k == "assign_twin":
+                    # the value is the container OBJECT of another instance of the class (same trait), which is then dropped
+                    try:
+                        conv(tspec, raw)
+                    except Reject:
+                        raise Skip()
                 expected = conv(tspec, raw)
             elif k == "assign_other":
                 raise Reject()
@@ -604,6 +631,28 @@ def run(case, ctx):
             if k in ("assign", "assign_other"):
                 setattr(o, name, op[1])
                 r = None
+            elif k == "assign_copy":
+                d = copy.deepcopy(tgt)
+                {"list": list, "dict": dict, "set": set}[kind].clear(d)
+                if kind == "list":
+                    list.extend(d, op[1])
+                elif kind == "dict":
+                    dict.update(d, op[1])
+                else:
+                    set.update(d, op[1])
+                ctx.label("assign-detached-copy")
+                setattr(o, name, d)
+                del d
+                r = None
+            elif k == "assign_twin":
+                twin = type(o)()
+                setattr(twin, name, op[1])
+                setattr(o, name, getattr(twin, name))
+                del twin
+                gc.collect()
+                ctx.label("assign-from-twin")
+                interesting = True
+                r = None
             elif kind == "list":
                 r = r_list(tgt, op)
             elif kind == "dict":
@@ -639,7 +688,7 @@ def run(case, ctx):
                      % (what(), plain(getattr(o, name))))
         if m_exc is not None:
             ctx.fail("model/exception-class", "builtin raises %s, container succeeded: %s" % (m_exc.__name__, what()))
-        got = plain(getattr(o, name)) if k == "assign" else plain(tgt)
+        got = plain(getattr(o, name)) if k in ("assign", "assign_copy", "assign_twin") else plain(tgt)
         if expected == "pop":
             if r not in model or got != model - {r}:
                 ctx.fail("model/contents", "set.pop returned %r leaving %r: %s" % (r, got, what()))
